@@ -497,6 +497,8 @@ class Prog:
             if op in ("send", "call", "force_send"):
                 o["scr"] = self.scripts() if callable(self.scripts) else rng.choice(self.scripts)
             if (op, k) in NEWKIND:
+                if k == "addr" and op in ("sender", "caller", "weak_sender", "weak_caller", "downgrade"):
+                    o["d"] = rng.choice([0, 0, 1, 2])      # the conversion method, or the equivalent From impl (by reference / by value)
                 nh = self.fresh()
                 o["nh"] = nh
                 o["to"] = self.c
